@@ -227,7 +227,9 @@ type Cond struct {
 func NewCond(l interface {
 	Lock()
 	Unlock()
-}) *Cond { return &Cond{L: l} }
+}) *Cond {
+	return &Cond{L: l}
+}
 
 func (c *Cond) ident() int {
 	if c.id == 0 || c.owner != S {
